@@ -52,6 +52,9 @@ def clutter(rng, cfg):
     # a file named exactly like the fixed name part (and its archive): with a basename that ends like the suffix ("srv.log" +
     # suffix "log") its stem is SHORTER than the fixed name part
     pool += [fixed, fixed + b".gz"]
+    # indices at the end of u32 (the code's index type): the next index does not exist (fixed defect, section 9), and one that
+    # does not fit into u32 at all
+    pool += [fixed + b"_r4294967295" + sfx, fixed + b"_r4294967294" + sfx, fixed + b"_r4294967296" + sfx, fixed + b"_r4294967295" + sfx + b".gz"]
     pool = [n for n in pool if n]      # (an empty name is no file name)
     return rng.sample(pool, rng.randint(1, min(5, len(pool))))
 
@@ -112,7 +115,31 @@ def corpus():
             c = g.Cfg(base=b"srv.log", sfx=b"log", crit="s8", naming=naming, cleanup=cl, append=naming == "tsd")
             out.append("flw %d 0 ; XC:%s:0:%s XC:%s:1:%s B:%s W:%s W:%s Q:111:~ T W:%s S SN" % (
                 g.T0, g.hx(b"srv.log"), g.hx(b"x\n"), g.hx(b"srv.log.gz"), g.hx(b"y\n"), c.token(), g.hx(b"A0aaaaaaaa\n"), g.hx(b"B1\n"), g.hx(b"C2\n")))
+    # fixed defect: an index at the end of u32 in the directory - `idx + 1` panicked (overflow checks on) with the state mutex
+    # held, so every later call panicked too, or wrapped to 0 (overflow checks off) and the next rotation overwrote `_r00000`;
+    # now the rotation / the start fails with an error that is reported, and nothing panics
+    for naming in ("num", "numd"):
+        for app in (True, False):
+            for top in (b"r4294967295", b"r4294967294"):
+                c = g.Cfg(base=b"a", crit="s8", naming=naming, append=app)
+                out.append("flw %d 0 ; XC:%s:0:%s XC:%s:0:%s B:%s W:%s W:%s W:%s F SN W:%s S SN" % (
+                    g.T0, g.hx(c.name(top)), g.hx(b"old-max\n"), g.hx(c.name(b"r00000")), g.hx(b"old-zero\n"), c.token(),
+                    g.hx(b"A0aaaaaaaa\n"), g.hx(b"B1bbbbbbbbb\n"), g.hx(b"C2ccccccccc\n"), g.hx(b"D3\n")))
     return out
+
+
+def u32_edge(body):
+    """the history starts in a directory that holds an index at the end of u32 under a number naming: outside the model, whose
+    indices are unbounded (DESIGN section 8) - such cases are decided by the oracle alone"""
+    toks = body.split(" ")
+    b = [t for t in toks if t.startswith("B:")]
+    if not body.startswith("flw") or not b or b[0].split(",")[7] not in ("num", "numd"):
+        return False
+    return any(t.startswith("XC:") and (g.hx(b"r4294967295") in t or g.hx(b"r4294967294") in t) for t in toks)
+
+
+def compare(body, m, im):
+    return True if u32_edge(body) else m == im
 
 
 def generate(rng, tier):
